@@ -413,3 +413,42 @@ func (w *World) errIsFatal(f *Fn, call *ast.CallExpr) bool {
 	}
 	return false
 }
+
+// ObjIn resolves a package-level object by full import path (for packages whose short name is ambiguous).
+func (w *World) ObjIn(pkgPath, name string) types.Object {
+	for _, p := range w.All {
+		if p.PkgPath == pkgPath && p.Types != nil {
+			if o := p.Types.Scope().Lookup(name); o != nil {
+				return o
+			}
+		}
+	}
+	panic(anchorError{"object " + pkgPath + "." + name})
+}
+
+// errCheckOf returns the condition of the `if err != nil` that tests the error result of call:
+// either the if statement whose Init holds the call, or the statement right after the assignment.
+func (w *World) errCheckOf(call *ast.CallExpr) ast.Expr {
+	as, ok := w.parentOf(call).(*ast.AssignStmt)
+	if !ok {
+		return nil
+	}
+	if is, ok := w.parentOf(as).(*ast.IfStmt); ok && is.Init == ast.Stmt(as) {
+		if w.errNonNil(is.Cond, true) {
+			return unparen(is.Cond)
+		}
+		return nil
+	}
+	if list, i := w.stmtListOf(as); i >= 0 && i+1 < len(list) {
+		if is, ok := list[i+1].(*ast.IfStmt); ok && w.errNonNil(is.Cond, true) {
+			return unparen(is.Cond)
+		}
+	}
+	return nil
+}
+
+// excuseErrOf: only the error branch of the check that tests call's own error is excused.
+func excuseErrOf(w *World, call *ast.CallExpr) Excuse {
+	cond := w.errCheckOf(call)
+	return Excuse{Cond: func(e ast.Expr) bool { return cond != nil && e == cond }, Val: true}
+}
